@@ -102,7 +102,7 @@ class PreHandshakeWorld(World):
             "time (virtual clock)", "raw scripted peers"]
     PROBES = ["m1_not_connect", "m1_unknown_serializer", "m1_unknown_object", "m1_bad_shape", "validator_raised", "validator_odd_return",
               "pipelined_after_fail", "pipelined_after_ok", "connectfail_seen", "connectok_seen", "legit_ok", "m1_truncated",
-              "m1_mutated", "multiplex", "thread", "validator_bare_exception", "unregister_raced", "garbage_bad_prefix", "m1_stalled_until_commtimeout",
+              "m1_mutated", "multiplex", "thread", "validator_bare_exception", "unregister_raced", "proxy_reconnects_to_withdrawn_object", "garbage_bad_prefix", "m1_stalled_until_commtimeout",
               "m1_connect_with_bad_body", "m1_not_connect_body_incomplete", "annotations_hook_fails", "wall_clock_stepped", "m1_in_slow_pieces"]
     RULE = ("plan = (server type, COMMTIMEOUT, validator behaviour, 1-3 raw peers each with first message spec + 0-3 pipelined message "
             "specs sent in one write or several, optional legitimate client); distinct = distinct interleaving digest; "
@@ -155,7 +155,7 @@ class PreHandshakeWorld(World):
         if rng.random() < 0.3:
             # an object that is unregistered while peers are connecting to it; some connect at that very instant, some later
             at = rng.choice([0.0, 0.01, 0.05, 0.2])
-            unreg = {"at": at}
+            unreg = {"at": at, "reconnect": rng.random() < 0.5}
             starts = [at, at, at + rng.choice([0.0, 0.001]), at + 3.0, at + rng.choice([0.5, 4.0])]
             for k in range(rng.randint(2, 5)):
                 peers.append({"m1": {"base": "connect", "obj": "tmp", "ser": rng.choice([1, 2, 3, 4]), "arg": 0, "seq": 0, "mut": [], "hand": "valid"},
@@ -327,9 +327,40 @@ class PreHandshakeWorld(World):
             except Exception as x:  # noqa
                 legit["error"] = (type(x).__name__, str(x)[:150])
 
+        recon = {}
+
+        def reconnecting_client():
+            """an ordinary proxy that was connected to the object before it was withdrawn and comes back afterwards (it still holds
+            the object's metadata): the new connection's handshake names an unknown object"""
+            p = CL.Proxy(str(uri).replace("tok@", "tmp@"))
+            p._pyroTimeout = None
+            try:
+                p._pyroBind()
+            except Exception as x:  # noqa - refused by the validator, or withdrawn already
+                recon["first"] = type(x).__name__
+                return
+            recon["first"] = "ok"
+            sched.sleep(plan["unregister"]["at"] + 1.0)
+            recon["began"] = sched.stamp()
+            try:
+                p._pyroReconnect(tries=1)
+                recon["again"] = "ok"
+                try:
+                    recon["call"] = ("ok", p.echo("R1"))
+                except Exception as x:  # noqa
+                    recon["call"] = (type(x).__name__, str(x)[:100])
+            except Exception as x:  # noqa
+                recon["again"] = type(x).__name__
+            try:
+                p._pyroRelease()
+            except Exception:  # noqa
+                pass
+
         ths = [threading.Thread(target=peer, args=(i, s), name="peer%d" % i) for i, s in enumerate(plan["peers"])]
         if plan["legit"]:
             ths.append(threading.Thread(target=legit_client, name="legit"))
+        if plan.get("unregister") and plan["unregister"].get("reconnect"):
+            ths.append(threading.Thread(target=reconnecting_client, name="legit-reconnect"))
         for t in ths:
             t.start()
         if plan.get("unregister"):
@@ -364,6 +395,11 @@ class PreHandshakeWorld(World):
                     began = min([r["sent_stamp"] for r in results.values() if r.get("conn") == conn and "sent_stamp" in r], default=None)
                 if stamp > unreg["ret"] and began is not None and began > unreg["ret"]:
                     ctx.violate("executed-after-unregister", meth, "%s(%r) ran on the unregistered object for connection %r" % (meth, tok, conn))
+            if recon.get("first") == "ok" and recon.get("began", 0) > unreg["ret"]:
+                ctx.probe("proxy_reconnects_to_withdrawn_object")
+                if recon.get("again") == "ok":
+                    ctx.violate("handshake-accepted-wrongly", "reconnect-to-unregistered-object", "a proxy that had been connected to 'tmp' "
+                                "reconnected after the object was unregistered and was let in (then: call -> %r)" % (recon.get("call"),))
             for pi, spec in enumerate(plan["peers"]):
                 r = results.get(pi)
                 if r and spec["m1"].get("obj") == "tmp" and r.get("sent_stamp", 0) > unreg["ret"] and r["received"]:
@@ -491,6 +527,10 @@ class PreHandshakeWorld(World):
                     # it has no business waiting for the rest of the body
                     return "fail:not-connect"
             return "trunc" if not muts and m1["base"] != "garbage" and m1["trunc"] < 0.999 else "unknown"
+        if m1["base"] == "connect" and len(muts) == 1 and muts[0]["f"] == "payload" and muts[0]["v"] in ("zok", "ztrailing"):
+            # the same handshake, compressed (the daemon honours the flag whatever its own setting; zlib ignores bytes behind the
+            # end of the stream): judged like the plain one
+            return PreHandshakeWorld._classify(dict(m1, mut=[]), vm, True)
         if m1["base"] == "connect" and len(muts) == 1 and muts[0]["f"] == "payload":
             # a connect request with a well-formed header whose body is not a handshake (empty, garbage, wrong shape ...)
             return "fail:payload"
